@@ -220,6 +220,8 @@ def to_events(sc: dict, r: dict):
     loop_q = {}          # vid of a _run_consumer task -> queue number
     proc_m = {}          # vid of a _process_with_event task -> message number
     last_done = None
+    slow_pause = bool(sc.get("pause_round_trip"))
+    pausing, fast_after_pause = set(), set()
     holding = {}         # queue -> message its loop took last
     surplus = {}         # message being given back -> queue
     events = r["events"]
@@ -273,6 +275,12 @@ def to_events(sc: dict, r: dict):
                 problems.append("limiter acquired outside a loop task")
             elif not e["locked"]:
                 evs.append(f"(EvAcquireFast {q})")
+                if q in pausing:
+                    pausing.discard(q)
+                    fast_after_pause.add(q)        # pause() was on the wire, a slot freed meanwhile: no waiting; unpause() follows
+            elif q in pausing:
+                pausing.discard(q)
+                evs.append(f"(EvPause {q})")      # pause() has returned, the limiter is still locked: the loop queues up now
         elif k == "sem_release" and e["sem"] == lab["sem"]:
             if e["tv"] in loop_q:
                 surplus[holding.get(loop_q[e["tv"]])] = loop_q[e["tv"]]
@@ -283,9 +291,18 @@ def to_events(sc: dict, r: dict):
             else:
                 problems.append("limiter released by neither a loop nor a finished task")
         elif k == "pause" and e["tq"] == "_Runner._run_consumer":
-            evs.append(f"(EvPause {int(e['queue'][1:])})")
+            if slow_pause:
+                # a pause() that is a round trip: the loop has not queued up yet (Runner.EvPauseStart)
+                pausing.add(int(e['queue'][1:]))
+                evs.append(f"(EvPauseStart {int(e['queue'][1:])})")
+            else:
+                evs.append(f"(EvPause {int(e['queue'][1:])})")
         elif k == "unpause" and e["tq"] == "_Runner._run_consumer":
-            evs.append(f"(EvUnpause {int(e['queue'][1:])})")
+            if int(e['queue'][1:]) in fast_after_pause:
+                fast_after_pause.discard(int(e['queue'][1:]))
+                evs.append(f"(EvUnpauseHold {int(e['queue'][1:])})")
+            else:
+                evs.append(f"(EvUnpause {int(e['queue'][1:])})")
         elif k == "broker_done" and e["op"] == "reject" and int(e["id"][1:]) in surplus:
             # (the broker call runs in the middleware wrapper's child task: attributed through the message)
             q_ = surplus.pop(int(e['id'][1:]))
